@@ -105,6 +105,10 @@ func H_C18_limit() {
 	}
 	A := math.NewInt(1000)
 	w.L.Set(escrow, nativeDenom, math.NewInt(5000))
+	if verif.Bool("coins-already-on-the-orbiter-account") {
+		// (the hook that enforces the limit also sweeps such coins: neither outcome may hide the other's)
+		w.L.Set(core.ModuleAddress, nativeDenom, math.NewInt(7))
+	}
 	ack := w.Recv(orbiterData(A, p))
 	if uint64(len(pt)) > uint64(current) {
 		verif.Cover("over-limit")
